@@ -12,6 +12,34 @@ pub mod c06;
 pub mod c06_socket;
 pub mod c07;
 pub mod c08;
+pub mod c09;
+pub mod c10;
+pub mod c11;
+pub mod c11_cluster;
+pub mod c12;
+pub mod c12_process;
+pub mod c13;
+pub mod c13_wire;
+pub mod c14;
+pub mod c15;
+pub mod c15_jwt;
+pub mod c15_relation;
+pub mod c15_session;
+pub mod c16;
+mod c16_sock;
+pub mod c17;
+pub mod c17_child;
+pub mod c17_gen;
+pub mod c18;
+pub mod c18_proc;
+pub mod c19;
+pub mod c19_run;
+pub mod c20;
+pub mod c20_api;
+pub mod c20_buffer;
+pub mod c20_fake;
+pub mod c20_pairing;
+pub mod c20_util;
 pub mod smoke;
 
 pub fn run(property: &str, ctx: &Ctx) -> Option<Evidence> {
@@ -24,6 +52,18 @@ pub fn run(property: &str, ctx: &Ctx) -> Option<Evidence> {
         "C06" => Some(c06::run(ctx)),
         "C07" => Some(c07::run(ctx)),
         "C08" => Some(c08::run(ctx)),
+        "C09" => Some(c09::run(ctx)),
+        "C10" => Some(c10::run(ctx)),
+        "C11" => Some(c11::run(ctx)),
+        "C12" => Some(c12::run(ctx)),
+        "C13" => Some(c13::run(ctx)),
+        "C14" => Some(c14::run(ctx)),
+        "C15" => Some(c15::run(ctx)),
+        "C16" => Some(c16::run(ctx)),
+        "C17" => Some(c17::run(ctx)),
+        "C18" => Some(c18::run(ctx)),
+        "C19" => Some(c19::run(ctx)),
+        "C20" => Some(c20::run(ctx)),
         "SMOKE" => Some(smoke::run(ctx)),
         _ => None,
     }
